@@ -140,6 +140,8 @@ struct Script {
     wfault: Option<u64>,
     /// every write succeeds, `fsync` fails (the temp path is planted as a symlink to /dev/null: EINVAL)
     sync_fault: bool,
+    /// the async puller is driven over a `WebSocketClient` instead of an `AsyncClient`
+    ws: bool,
 }
 
 /// Deterministic filler for large bodies (`g<seed>.<len>` on the line protocol; twin of `genBytes`).
@@ -188,8 +190,9 @@ fn parse_resp(w: &str) -> Option<Resp> {
 impl Script {
     fn words(&self) -> String {
         let mut s = format!(
-            "{} {} {} {} {} {} {} - {} {} wire",
+            "{}{} {} {} {} {} {} {} - {} {} wire",
             self.puller.name(),
+            if self.ws { "@ws" } else { "" },
             if self.zstd { "zstd" } else { "none" },
             if self.beve { "beve" } else { "raw" },
             match self.open {
@@ -233,7 +236,8 @@ impl Script {
         let after = if i < w.len() { w[i + 1..].iter().map(|s| s.to_string()).collect() } else { vec![] };
         Some((
             Script {
-                puller: Puller::parse(w[0])?,
+                puller: Puller::parse(w[0].trim_end_matches("@ws"))?,
+                ws: w[0].ends_with("@ws"),
                 zstd: w[1] == "zstd",
                 beve: w[2] == "beve",
                 open: match w[3] {
@@ -346,6 +350,8 @@ struct Sess {
 struct Fake {
     addr: SocketAddr,
     reg: Arc<Mutex<HashMap<String, Arc<Sess>>>>,
+    ws_addr: Option<SocketAddr>,
+    ids: Arc<AtomicU64>,
 }
 
 fn read_frame(s: &mut TcpStream) -> Option<RawFrame> {
@@ -362,85 +368,110 @@ fn read_frame(s: &mut TcpStream) -> Option<RawFrame> {
     Some(RawFrame { h: rh, query: q, body: b })
 }
 
-fn reply(s: &mut TcpStream, id: u64, ec: u32, qfmt: u16, q: &[u8], bfmt: u16, b: &[u8]) -> bool {
-    let mut f = RawFrame::request(id, false, qfmt, q, bfmt, b);
-    f.h.ec = ec;
-    s.write_all(&f.to_vec()).is_ok() && s.flush().is_ok()
+type Reg = Arc<Mutex<HashMap<String, Arc<Sess>>>>;
+
+enum Act {
+    Reply(Vec<u8>),
+    Silent,
+    Close,
 }
 
-fn fake_conn(mut s: TcpStream, reg: Arc<Mutex<HashMap<String, Arc<Sess>>>>, ids: Arc<AtomicU64>) {
+fn frame(id: u64, ec: u32, qfmt: u16, q: &[u8], bfmt: u16, b: &[u8]) -> Act {
+    let mut f = RawFrame::request(id, false, qfmt, q, bfmt, b);
+    f.h.ec = ec;
+    Act::Reply(f.to_vec())
+}
+
+/// What the scripted peer does with one request (shared by the TCP and the WebSocket front end).
+fn answer(f: &RawFrame, reg: &Reg, ids: &AtomicU64, streams: &mut HashMap<u64, Arc<Sess>>) -> Act {
+    let path = String::from_utf8_lossy(&f.query).to_string();
+    if f.h.notify != 0 {
+        return Act::Silent; // cancel (notify form): nothing to answer
+    }
+    match path.as_str() {
+        "/_svs/open" => {
+            let Ok(req) = beve::from_slice::<OpenReq>(&f.body) else {
+                return frame(f.h.id, 4, 0, b"", 3, b"bad open");
+            };
+            let Some(sess) = reg.lock().unwrap().get(&req.resource).cloned() else {
+                return frame(f.h.id, 6, 0, b"", 3, b"unknown resource");
+            };
+            match sess.script.open {
+                Open::Cut => Act::Close,
+                Open::Err if sess.open_flavour == 0 => frame(f.h.id, 6, 0, b"", 3, b"no such resource"),
+                o => {
+                    let id = ids.fetch_add(1, Ordering::Relaxed);
+                    streams.insert(id, sess.clone());
+                    let mut r = OpenResp { version: 1, stream_id: id, format: if sess.script.beve { 1 } else { 0 }, compression: sess.script.zstd as u8 };
+                    if o == Open::Err {
+                        if sess.open_flavour == 1 {
+                            r.version = 2;
+                        } else {
+                            r.compression = 7;
+                        }
+                    }
+                    frame(f.h.id, 0, 0, b"", 1, &beve::to_vec(&r).unwrap())
+                }
+            }
+        }
+        "/_svs/next" => {
+            let Some(sess) = beve::from_slice::<NextReq>(&f.body).ok().and_then(|r| streams.get(&r.stream_id).cloned()) else {
+                return frame(f.h.id, 3, 0, b"", 3, b"unknown stream");
+            };
+            let r = {
+                let mut p = sess.pos.lock().unwrap();
+                let r = sess.script.wire.get(*p).cloned().unwrap_or(Resp::Cut);
+                *p += 1;
+                r
+            };
+            match r {
+                Resp::Chunk(b, last) => frame(f.h.id, 0, 0, &[last as u8], 0, &b),
+                Resp::Error => frame(f.h.id, 9, 0, b"", 3, b"producer failed"),
+                Resp::Cut => Act::Close,
+            }
+        }
+        _ => frame(f.h.id, 6, 0, b"", 3, b"no route"),
+    }
+}
+
+fn fake_conn(mut s: TcpStream, reg: Reg, ids: Arc<AtomicU64>) {
     let _ = s.set_nodelay(true);
     let mut streams: HashMap<u64, Arc<Sess>> = HashMap::new();
     while let Some(f) = read_frame(&mut s) {
-        let path = String::from_utf8_lossy(&f.query).to_string();
-        if f.h.notify != 0 {
-            continue; // cancel (notify form): nothing to answer
+        match answer(&f, &reg, &ids, &mut streams) {
+            Act::Reply(b) => {
+                if s.write_all(&b).is_err() || s.flush().is_err() {
+                    return;
+                }
+            }
+            Act::Silent => {}
+            Act::Close => {
+                let _ = s.shutdown(std::net::Shutdown::Both);
+                return;
+            }
         }
-        match path.as_str() {
-            "/_svs/open" => {
-                let Ok(req) = beve::from_slice::<OpenReq>(&f.body) else {
-                    reply(&mut s, f.h.id, 4, 0, b"", 3, b"bad open");
-                    continue;
-                };
-                let Some(sess) = reg.lock().unwrap().get(&req.resource).cloned() else {
-                    reply(&mut s, f.h.id, 6, 0, b"", 3, b"unknown resource");
-                    continue;
-                };
-                match sess.script.open {
-                    Open::Cut => {
-                        let _ = s.shutdown(std::net::Shutdown::Both);
-                        return;
-                    }
-                    Open::Err if sess.open_flavour == 0 => {
-                        reply(&mut s, f.h.id, 6, 0, b"", 3, b"no such resource");
-                    }
-                    o => {
-                        let id = ids.fetch_add(1, Ordering::Relaxed);
-                        streams.insert(id, sess.clone());
-                        let mut r = OpenResp {
-                            version: 1,
-                            stream_id: id,
-                            format: if sess.script.beve { 1 } else { 0 },
-                            compression: sess.script.zstd as u8,
-                        };
-                        if o == Open::Err {
-                            if sess.open_flavour == 1 {
-                                r.version = 2;
-                            } else {
-                                r.compression = 7;
-                            }
-                        }
-                        reply(&mut s, f.h.id, 0, 0, b"", 1, &beve::to_vec(&r).unwrap());
-                    }
+    }
+}
+
+/// The same peer behind a WebSocket endpoint: one REPE frame per binary message; a cut drops the TCP
+/// connection without a close handshake.
+async fn fake_ws_conn(s: tokio::net::TcpStream, reg: Reg, ids: Arc<AtomicU64>) {
+    use futures_util::{SinkExt, StreamExt};
+    use tokio_tungstenite::tungstenite::Message as Ws;
+    let _ = s.set_nodelay(true);
+    let Ok(mut ws) = tokio_tungstenite::accept_async(s).await else { return };
+    let mut streams: HashMap<u64, Arc<Sess>> = HashMap::new();
+    while let Some(Ok(m)) = ws.next().await {
+        let Ws::Binary(payload) = m else { continue };
+        let Some((f, _)) = RawFrame::parse_prefix(&payload) else { return };
+        match answer(&f, &reg, &ids, &mut streams) {
+            Act::Reply(b) => {
+                if ws.send(Ws::Binary(b.into())).await.is_err() {
+                    return;
                 }
             }
-            "/_svs/next" => {
-                let Some(sess) = beve::from_slice::<NextReq>(&f.body).ok().and_then(|r| streams.get(&r.stream_id).cloned()) else {
-                    reply(&mut s, f.h.id, 3, 0, b"", 3, b"unknown stream");
-                    continue;
-                };
-                let r = {
-                    let mut p = sess.pos.lock().unwrap();
-                    let r = sess.script.wire.get(*p).cloned().unwrap_or(Resp::Cut);
-                    *p += 1;
-                    r
-                };
-                match r {
-                    Resp::Chunk(b, last) => {
-                        reply(&mut s, f.h.id, 0, 0, &[last as u8], 0, &b);
-                    }
-                    Resp::Error => {
-                        reply(&mut s, f.h.id, 9, 0, b"", 3, b"producer failed");
-                    }
-                    Resp::Cut => {
-                        let _ = s.shutdown(std::net::Shutdown::Both);
-                        return;
-                    }
-                }
-            }
-            _ => {
-                reply(&mut s, f.h.id, 6, 0, b"", 3, b"no route");
-            }
+            Act::Silent => {}
+            Act::Close => return, // dropping the stream closes the socket
         }
     }
 }
@@ -451,17 +482,30 @@ fn start_fake() -> Fake {
     let reg: Arc<Mutex<HashMap<String, Arc<Sess>>>> = Arc::new(Mutex::new(HashMap::new()));
     let ids = Arc::new(AtomicU64::new(1));
     let reg2 = reg.clone();
+    let ids2 = ids.clone();
     std::thread::spawn(move || {
         for c in l.incoming() {
             let Ok(c) = c else { continue };
-            let (r, i) = (reg2.clone(), ids.clone());
+            let (r, i) = (reg2.clone(), ids2.clone());
             std::thread::spawn(move || fake_conn(c, r, i));
         }
     });
-    Fake { addr, reg }
+    Fake { addr, reg, ws_addr: None, ids }
 }
 
 impl Fake {
+    /// Start the WebSocket front end on `rt`.
+    fn start_ws(&mut self, rt: &tokio::runtime::Runtime) {
+        let (reg, ids) = (self.reg.clone(), self.ids.clone());
+        let l = rt.block_on(async { tokio::net::TcpListener::bind("127.0.0.1:0").await }).expect("bind ws");
+        self.ws_addr = Some(l.local_addr().unwrap());
+        rt.spawn(async move {
+            loop {
+                let Ok((c, _)) = l.accept().await else { continue };
+                tokio::spawn(fake_ws_conn(c, reg.clone(), ids.clone()));
+            }
+        });
+    }
     fn register(&self, name: &str, sc: &Script, flavour: u8) -> Arc<Sess> {
         let s = Arc::new(Sess { script: sc.clone(), open_flavour: flavour, pos: Mutex::new(0) });
         self.reg.lock().unwrap().insert(name.to_string(), s.clone());
@@ -496,6 +540,7 @@ fn call_puller(
     trailer: usize,
     verify_ok: bool,
     seen: Arc<Mutex<Seen>>,
+    ws: Option<SocketAddr>,
 ) -> Result<(), RepeError> {
     let v1 = {
         let seen = seen.clone();
@@ -516,6 +561,16 @@ fn call_puller(
             if verify_ok { Ok(()) } else { Err(rej()) }
         }
     };
+    if let (true, Some(wsa)) = (p.is_async(), ws) {
+        return rt.block_on(async move {
+            let c = repe::WebSocketClient::connect(&format!("ws://{wsa}")).await.map_err(RepeError::Io)?;
+            match p {
+                Puller::FileAsync => repe::pull_to_file_async(&c, resource, dest).await.map(|_| ()),
+                Puller::VerifiedAsync => repe::pull_to_file_verified_async(&c, resource, dest, Vec::<u8>::new(), v1).await,
+                _ => repe::pull_to_file_trailer_verified_async(&c, resource, dest, trailer, Vec::<u8>::new(), v2).await,
+            }
+        });
+    }
     if p.is_async() {
         rt.block_on(async move {
             let c = AsyncClient::connect(addr).await.map_err(RepeError::Io)?;
@@ -554,7 +609,7 @@ fn child_main(a: &[String]) -> ! {
     let addr: SocketAddr = a[1].parse().expect("addr");
     let rt = tokio::runtime::Builder::new_current_thread().enable_all().build().unwrap();
     let seen = Arc::new(Mutex::new(Seen::default()));
-    let r = call_puller(&rt, p, addr, &a[2], Path::new(&a[3]), a[4].parse().unwrap(), a[5] == "ok", seen.clone());
+    let r = call_puller(&rt, p, addr, &a[2], Path::new(&a[3]), a[4].parse().unwrap(), a[5] == "ok", seen.clone(), None);
     let mut o = std::io::stdout();
     let sn = seen.lock().unwrap().clone();
     let _ = writeln!(o, "ret {} seen {} trailer {}", if r.is_ok() { "ok" } else { "err" }, digest(&sn.digest), hex(&sn.trailer));
@@ -737,7 +792,8 @@ impl Ctx {
         let (_, dir) = self.fresh();
         let dest = prepare_sc(&dir, sc);
         let seen = Arc::new(Mutex::new(Seen::default()));
-        let r = call_puller(&self.rt, sc.puller, addr, resource, &dest, sc.trailer, sc.verify_ok, seen.clone());
+        let ws = if sc.ws { self.fake.ws_addr } else { None };
+        let r = call_puller(&self.rt, sc.puller, addr, resource, &dest, sc.trailer, sc.verify_ok, seen.clone(), ws);
         let o = Obs { ok: r.is_ok(), dest: dest_state(&dest, sc.dest), tmp: tmp_present(&dest), seen: seen.lock().unwrap().clone() };
         let _ = std::fs::remove_dir_all(&dir);
         o
@@ -803,7 +859,7 @@ fn nontrivial(sc: &Script) -> bool {
 }
 
 fn count_case(out: &mut Out, sc: &Script, kind: &str) {
-    out.count(&format!("{kind}.puller.{}", sc.puller.name()));
+    out.count(&format!("{kind}.puller.{}{}", sc.puller.name(), if sc.ws { "@ws" } else { "" }));
     out.count(&format!("{kind}.comp.{}", if sc.zstd { "zstd" } else { "none" }));
     out.count(&format!("{kind}.dest.{:?}", sc.dest));
     let end = if sc.open != Open::Ok {
@@ -1367,7 +1423,7 @@ fn make_script(p: Puller, zstd: bool, logical: &[u8], sizes: &[usize], fault: Op
     let wire_bytes = if zstd { zstd_of(logical) } else { logical.to_vec() };
     let cs = split_at_sizes(&wire_bytes, sizes);
     let wire = wire_of(&cs, fault, last_on_empty);
-    let mut sc = Script { puller: p, zstd, beve: true, open: Open::Ok, verify_ok: true, trailer: 0, dest: Dest::None, dec: Dec::Na, wire, wfault: None, sync_fault: false };
+    let mut sc = Script { puller: p, zstd, beve: true, open: Open::Ok, verify_ok: true, trailer: 0, dest: Dest::None, dec: Dec::Na, wire, wfault: None, sync_fault: false, ws: false };
     sc.dec = dec_for(&sc);
     sc
 }
@@ -1489,6 +1545,34 @@ fn gen_and_run(args: &Args, out: &mut Out, ctx: &mut Ctx) {
         }
     }
 
+    // (A') the three async pullers over a WebSocketClient (same generic pull code, other transport)
+    for &p in &[Puller::FileAsync, Puller::VerifiedAsync, Puller::TrailerAsync] {
+        for zstd in [false, true] {
+            let n = 20 + rng.below(30) as usize;
+            let logical: Vec<u8> = rng.bytes(n).iter().map(|b| b | 1).collect();
+            let sizes = [7usize, 9, 4];
+            let nchunks = split_at_sizes(&if zstd { zstd_of(&logical) } else { logical.clone() }, &sizes).len();
+            let mut cases: Vec<Script> = vec![make_script(p, zstd, &logical, &sizes, None, false), make_script(p, zstd, &logical, &sizes, None, true)];
+            for k in 0..=nchunks {
+                for f in [Resp::Error, Resp::Cut] {
+                    cases.push(make_script(p, zstd, &logical, &sizes, Some((k, f)), false));
+                }
+            }
+            let mut rejd = make_script(p, zstd, &logical, &sizes, None, false);
+            rejd.verify_ok = false;
+            cases.push(rejd);
+            let mut oc = make_script(p, zstd, &logical, &sizes, None, false);
+            oc.open = Open::Cut;
+            cases.push(oc);
+            for (j, mut sc) in cases.into_iter().enumerate() {
+                sc.ws = true;
+                sc.dest = if j % 2 == 0 { Dest::Old } else { Dest::None };
+                sc.trailer = if p.has_trailer() { 5 } else { 0 };
+                ctx.exec_script(out, &next("x"), &sc, 0);
+            }
+        }
+    }
+
     // (B) random scripts: sizes around io::copy's 8 KiB buffer, empty chunks, mixed write sizes for TrailerHold
     let nrand = if thorough { 1500 } else { 260 };
     for _ in 0..nrand {
@@ -1563,7 +1647,7 @@ fn gen_and_run(args: &Args, out: &mut Out, ctx: &mut Ctx) {
                 }
                 let r = Real { writer: rng.chance(1, 2), chunk, fail: f, depth: rng.below(5) as usize, payload: payload.clone() };
                 let (wire, dec) = real_wire(&r, zstd);
-                let mut sc = Script { puller: p, zstd, beve: false, open: Open::Ok, verify_ok: true, trailer: if p.has_trailer() { 8 } else { 0 }, dest: *rng.pick(&[Dest::None, Dest::Old]), dec, wire, wfault: None, sync_fault: false };
+                let mut sc = Script { puller: p, zstd, beve: false, open: Open::Ok, verify_ok: true, trailer: if p.has_trailer() { 8 } else { 0 }, dest: *rng.pick(&[Dest::None, Dest::Old]), dec, wire, wfault: None, sync_fault: false, ws: false };
                 if p.verifies() && f.is_none() && rng.chance(1, 3) {
                     sc.verify_ok = false;
                 }
@@ -1801,6 +1885,7 @@ fn replay(ops: Vec<String>, out: &mut Out, ctx: &mut Ctx) {
                         wire,
                         wfault: None,
                         sync_fault: false,
+                        ws: false,
                     };
                     ctx.exec_value(out, &idx, w[2] == "async", &sc, w[7].parse().unwrap_or(0));
                 }
@@ -1831,6 +1916,7 @@ fn main() {
         syncfault_ok: fsync_on_devnull_fails(),
         anywrite: args.thorough(),
     };
+    ctx.fake.start_ws(&ctx.rt);
     out.extra.insert("strace".into(), serde_json::json!(ctx.strace_ok));
     match args.replay_ops() {
         Some(ops) => replay(ops, &mut out, &mut ctx),
